@@ -142,6 +142,12 @@ impl Check for Access {
     fn components(&self) -> serde_json::Value {
         serde_json::json!({"real": ["stellar_access::access_control::* (trait defaults)", "stellar_macros::{only_admin, only_role, has_role, only_any_role, has_any_role}"], "stub": ["Wallet"]})
     }
+    fn dup_ok(&self, _s: &Step) -> bool {
+        true
+    }
+    fn reorder_ok(&self) -> bool {
+        true
+    }
     fn generate(&self, rng: &mut Rng, tier: Tier) -> (Cfg, std::vec::Vec<Step>) {
         let cfg = Cfg { actors: 4 + rng.below(3) as usize };
         let n = cfg.actors as u64;
